@@ -37,3 +37,8 @@ pub use decode::decode;
 pub use decode::{decode_streaming, DecodeErr, DecodeIterator, Decoder};
 pub use decoder_reader::{DecoderReader, ReadDecodedError};
 pub use encode::{encode, encode_streaming, Encoder};
+
+#[cfg(feature = "verif-hooks")]
+pub use decode::verif as decode_verif;
+#[cfg(feature = "verif-hooks")]
+pub use encode::verif as encode_verif;
